@@ -127,6 +127,10 @@ def run(P, rep, tier):
                     kw = e.data['kwargs']
                     if concrete(kw.get('indent')) != 4 or concrete(kw.get('sort_keys')) is not True:
                         probs8.add('json.dumps(indent=%r, sort_keys=%r)' % (concrete(kw.get('indent')), concrete(kw.get('sort_keys'))))
+                    ea = kw.get('ensure_ascii')
+                    if ea is not None and concrete(ea) is not True:
+                        probs8.add('json.dumps(ensure_ascii=%r): non-ASCII metadata is written raw, so it depends on (and can fail '
+                                   'in) the section encoding and differs from the canonical escaped form' % (concrete(ea),))
                     sp = kw.get('separators')
                     if sp is not None and concrete(sp) != (',', ': '):
                         probs8.add('json.dumps(separators=%r)' % (concrete(sp),))
@@ -139,9 +143,23 @@ def run(P, rep, tier):
                 rep.violation(rid, '%s:%s' % (meth, tag), m.loc(), '%s: %s' % (inst, '; '.join(sorted(probs))), path=[inst])
             elif rid in (r3, r5) or (rid is r7 and kind == 'preamble') or (rid is r8 and kind == 'meta'):
                 rep.ok(rid, inst, {'paths': n})
-    # container headers
+    # caller-supplied options must be rendered whenever the call is accepted
+    r10 = rep.rule('C02-R10', 'an option the caller supplies (not None) is always rendered into the header of an accepted call', reference=5)
+    missing = {}
+    seen_opts = set()
     for seq, res in collected:
-        pass
+        for call, pname, key in res.get('unrendered', []):
+            missing.setdefault((call, pname), seq)
+        for call, pname in res.get('rendered', []):
+            seen_opts.add((call, pname))
+    for (call, pname), seq in sorted(missing.items()):
+        rep.violation(r10, 'option-not-rendered:%s:%s' % (call, pname), cls.find_method(call).loc(),
+                      '%s(%s=<value>) can be accepted without writing the option into the header (e.g. when it equals some other '
+                      'section\'s value): the bytes no longer declare what the content was encoded with' % (call, pname),
+                      path=[call], witness=fmt_seq(seq))
+    for call, pname in sorted(seen_opts):
+        if (call, pname) not in missing:
+            rep.ok(r10, '%s(%s=)' % (call, pname))
     # ---- R4 ids written = hierarchy ids ----------------------------------------------------
     r4 = rep.rule('C02-R4', 'the id written by each accepted call is the id the hierarchy assigns to it', reference=30)
     bad_ids = {}
